@@ -71,6 +71,8 @@ pub struct FnInfo {
     pub mut_params: Vec<String>,
     /// the `mut_params` of type `Option<&mut T>`: an optional reference (the callee returns the possibly updated `T`)
     pub opt_mut_params: Vec<String>,
+    /// the method is named like a field of its struct: its Lean name gets a trailing `'`
+    pub field_clash: bool,
     /// declared return type (`Ty::Res` for `Result`)
     pub ret: Ty,
     /// position in the emission order
@@ -116,7 +118,7 @@ pub fn simple_of(key: &str) -> &str {
 impl FnInfo {
     pub fn short_lean(&self) -> String {
         match &self.self_ty {
-            Some(t) => format!("{}.{}", simple_of(t), crate::ty::lean_ident(&self.name)),
+            Some(t) => format!("{}.{}{}", simple_of(t), crate::ty::lean_ident(&self.name), if self.field_clash { "'" } else { "" }),
             None => crate::ty::lean_ident(&self.name),
         }
     }
@@ -357,6 +359,25 @@ impl Globals {
                 failed.insert(w.group.clone(), e);
             }
         }
+        // a method named like a field of its struct would clash with the projection: its Lean name gets a `'`
+        let clashes: Vec<(Option<String>, String)> = g
+            .fns
+            .keys()
+            .filter(|(st, n)| match st {
+                Some(t) => g.structs.get(t).map(|s| s.fields.iter().any(|(f, _)| f == n)).unwrap_or(false),
+                None => false,
+            })
+            .cloned()
+            .collect();
+        for k in clashes {
+            if let Some(v) = g.fns.get_mut(&k) {
+                for f in v.iter_mut() {
+                    if !f.group.is_empty() {
+                        f.field_clash = true;
+                    }
+                }
+            }
+        }
         g
     }
 
@@ -416,6 +437,9 @@ impl Globals {
                                     if ignored.contains(&fname) {
                                         continue;
                                     }
+                                    if has_mut_ref(&f.ty) && !borrowed_ok(path, &s.ident.to_string()) {
+                                        return err_at(path, f.ty.span(), "a `&mut` reference stored in a struct field is not supported (no BORROWED_FIELDS_OK entry)");
+                                    }
                                     let ty = conv_ty(path, &f.ty, Some(&type_key(path, &s.ident.to_string(), &type_names)), &type_names)?;
                                     if let Some(len) = array_len_of(&f.ty) {
                                         g.array_lens.insert((type_key(path, &s.ident.to_string(), &type_names), String::new(), fname.clone()), len);
@@ -447,6 +471,9 @@ impl Globals {
                         let mut next: u128 = 0;
                         let mut all_unit = true;
                         for v in &e.variants {
+                            if v.fields.iter().any(|f| has_mut_ref(&f.ty)) && !borrowed_ok(path, &e.ident.to_string()) {
+                                return err_at(path, v.span(), "a `&mut` reference stored in an enum variant is not supported (no BORROWED_FIELDS_OK entry)");
+                            }
                             let mut fields = Vec::new();
                             match &v.fields {
                                 syn::Fields::Unit => {}
@@ -635,6 +662,7 @@ impl Globals {
                             err_state: matches!(ret, Ty::Res(_, _)) && (self_mode == SelfMode::Mut || !mut_params.is_empty()),
                             mut_params,
                             opt_mut_params,
+                            field_clash: false,
                             const_params,
                             ret,
                             order,
@@ -645,6 +673,10 @@ impl Globals {
         }
         Ok(())
     }
+}
+
+fn borrowed_ok(file: &str, ty: &str) -> bool {
+    crate::manifest::BORROWED_FIELDS_OK.iter().any(|(f, t, _)| *f == file && *t == ty)
 }
 
 /// does the type mention a `&mut` reference anywhere?
@@ -735,6 +767,7 @@ fn register_builtins(g: &mut Globals) {
             params: params.into_iter().map(|(a, b)| (a.to_string(), b)).collect(),
             mut_params: vec![],
             opt_mut_params: vec![],
+            field_clash: false,
             const_params: vec![],
             err_state: ERR_STATE_BUILTINS.contains(&(st, name)),
             ret,
@@ -787,6 +820,7 @@ fn register_builtins(g: &mut Globals) {
                 ],
                 mut_params: vec!["buffer".to_string()],
                 opt_mut_params: vec![],
+            field_clash: false,
                 const_params: vec![],
                 err_state: true,
                 ret: Ty::Res(Box::new(Ty::Unit), Box::new(cerr.clone())),
@@ -804,6 +838,7 @@ fn register_builtins(g: &mut Globals) {
         params: vec![("v".to_string(), Ty::Int(64))],
         mut_params: vec![],
         opt_mut_params: vec![],
+            field_clash: false,
         const_params: vec![],
         err_state: false,
         ret: Ty::usize(),
@@ -920,8 +955,11 @@ pub fn conv_ty(file: &str, t: &syn::Type, self_ty: Option<&str>, type_names: &[S
                 ("Bytes", 0) => return Ok(Ty::List(Box::new(Ty::u8()), ListKind::Bytes)),
                 ("BTreeMap", 2) | ("HashMap", 2) => {
                     let k = conv_ty(file, args[0], self_ty, type_names)?;
-                    if !matches!(k, Ty::Int(_)) {
-                        return err_at(file, t.span(), "only maps with an unsigned integer key are supported");
+                    // integer keys: the key-sorted `RustSem.Map`; a `HashMap<SocketAddr, _>`: the association list
+                    // `RustSem.AMap` (its iteration order is as unspecified as the HashMap's: same whitelist rules)
+                    let addr_key = name == "HashMap" && matches!(&k, Ty::Opaque(o) if o == "RustSem.SocketAddr");
+                    if !matches!(k, Ty::Int(_)) && !addr_key {
+                        return err_at(file, t.span(), "only maps with an unsigned integer key (or `HashMap<SocketAddr, _>`) are supported");
                     }
                     let v = conv_ty(file, args[1], self_ty, type_names)?;
                     return Ok(Ty::Map(Box::new(k), Box::new(v), name == "HashMap"));
